@@ -1,6 +1,7 @@
 import SwimVerif.Driver
 import SwimVerif.Model.InactivityRt
 import SwimVerif.Model.CoordThreads
+import SwimVerif.Model.InactivityDl
 
 namespace SwimVerif.Machines.C17X
 open SwimVerif
@@ -23,6 +24,15 @@ def c17th : Machine where
   minit := ()
   mstep := fun m line out => (m, CoordThreads.check line out)
 
-def machines : List (String × Machine) := [("c17rt", c17rt), ("c17th", c17th)]
+/-- the downlink runtime's "no consumers" discipline (two tasks + coordinator), differential + monitor -/
+def c17dl : Machine where
+  σ := Option InactDl.St
+  init := none
+  step := fun s line => InactDl.apiLine s line
+  μ := InactDl.Mon
+  minit := {}
+  mstep := fun m line out => m.step line out
+
+def machines : List (String × Machine) := [("c17rt", c17rt), ("c17th", c17th), ("c17dl", c17dl)]
 
 end SwimVerif.Machines.C17X
